@@ -30,6 +30,7 @@ type Obligation struct {
 	Ctx    *FnCtx
 	Label  string
 	Relaxed bool // a model exists only for the query without quantified assumptions
+	Scope  int
 }
 
 type FnCtx struct {
@@ -89,6 +90,8 @@ type Frame struct {
 	defers    []*deferred
 	iterFv    *FnVal // the closure passed to this (iterator) frame, when it carries iter invariants
 	iterCaller *Frame
+	baseScope  int
+	loopScope  map[*Loop]int
 }
 
 type edgeIn struct {
@@ -146,7 +149,7 @@ func (fr *Frame) oblige(kind, text, reach, goal string, pos token.Pos) *Obligati
 	base := fname + "/" + kind + "/" + text
 	c.oblCount[base]++
 	o := &Obligation{Name: fmt.Sprintf("%s#%d", base, c.oblCount[base]), Kind: kind, Fn: shortFn(c.fn),
-		Reach: reach, Goal: goal, UpTo: len(c.smt.items), Text: text, Ctx: c}
+		Reach: reach, Goal: goal, UpTo: len(c.smt.items), Text: text, Ctx: c, Scope: c.smt.curScope}
 	if pos.IsValid() {
 		p := c.eng.fset.Position(pos)
 		o.Pos = fmt.Sprintf("%s:%d", strings.TrimPrefix(p.Filename, "/repo/"), p.Line)
@@ -224,7 +227,8 @@ func (e *Engine) srcText(pos token.Pos, want string) string {
 
 func (c *FnCtx) newFrame(fn *ssa.Function, parent *Frame, fv *FnVal) *Frame {
 	fr := &Frame{c: c, fn: fn, vals: map[ssa.Value]Val{}, parent: parent, fnval: fv,
-		reach: map[*ssa.BasicBlock]string{}, edgeIn: map[*ssa.BasicBlock][]edgeIn{}, iterGhost: map[*ssa.Range]string{}}
+		reach: map[*ssa.BasicBlock]string{}, edgeIn: map[*ssa.BasicBlock][]edgeIn{}, iterGhost: map[*ssa.Range]string{},
+		baseScope: c.smt.curScope, loopScope: map[*Loop]int{}}
 	if parent != nil {
 		fr.depth = parent.depth + 1
 		l := shortFn(fn)
@@ -289,8 +293,10 @@ func (fr *Frame) execBody(st *State, r0 string, args []Val) (*State, []Val, stri
 		if reach == "false" {
 			continue
 		}
+		c.smt.curScope = fr.scopeOf(b)
 		fr.execBlock(b, cur, reach, ins)
 	}
+	c.smt.curScope = fr.baseScope
 	// merge returns
 	if len(fr.rets) == 0 {
 		return st, nil, "false"
@@ -312,6 +318,38 @@ func (fr *Frame) execBody(st *State, r0 string, args []Val) (*State, []Val, stri
 		results[i] = c.mergeVals(inc, vals)
 	}
 	return out, results, c.smt.define("Rret", "Bool", or(conds...))
+}
+
+// scopeOf: the scope of the innermost loop whose body (header excluded) contains b.
+func (fr *Frame) scopeOf(b *ssa.BasicBlock) int {
+	var best *Loop
+	for _, lp := range fr.loops.loops {
+		if lp.body[b] && lp.header != b {
+			if best == nil || len(lp.body) < len(best.body) {
+				best = lp
+			}
+		}
+	}
+	if best == nil {
+		return fr.baseScope
+	}
+	if id, ok := fr.loopScope[best]; ok {
+		return id
+	}
+	clean := true
+	for blk := range best.body {
+		if blk == best.header {
+			continue
+		}
+		for _, s := range blk.Succs {
+			if !best.body[s] {
+				clean = false
+			}
+		}
+	}
+	id := fr.c.smt.newScope(fr.scopeOf(best.header), clean)
+	fr.loopScope[best] = id
+	return id
 }
 
 func (fr *Frame) addEdge(from, to *ssa.BasicBlock, cond string, st *State) {
